@@ -18,6 +18,7 @@ pub const MAX_THREADS: usize = 8;
 const NO_TID: usize = usize::MAX;
 const MAX_STALE_ALTS: usize = 3;
 const MAX_PERIOD: usize = 6;
+const LIVELOCK_OPS: u64 = 1500;
 
 thread_local! {
     static TID: Cell<usize> = const { Cell::new(NO_TID) };
@@ -120,6 +121,10 @@ struct ThreadState {
     status: Status,
     yielding: bool,
     spin_epoch: Option<u64>,
+    /// set when the thread was re-enabled although it looks like a spinner (nobody else could
+    /// run): no re-flagging until some memory location changes
+    spin_immune_epoch: Option<u64>,
+    nochange_ops: u64,
     recent: Vec<(usize, u8, u64)>,
     recent_epoch: u64,
     steps: u64,
@@ -136,6 +141,8 @@ impl ThreadState {
             status: Status::Runnable,
             yielding: false,
             spin_epoch: None,
+            spin_immune_epoch: None,
+            nochange_ops: 0,
             recent: Vec::new(),
             recent_epoch: 0,
             steps: 0,
@@ -186,8 +193,6 @@ pub struct Exec {
     stale_used: u32,
     pub steps: u64,
     epoch: u64,
-    spin_releases: u32,
-    spin_release_epoch: u64,
     locs: HashMap<usize, Loc>,
     n_locs: usize,
     setup_phase: bool,
@@ -267,6 +272,7 @@ pub fn init_session(max_states: usize) {
         },
     });
     iceoryx2_pal_concurrency_sync::verif::install(&TABLE);
+    let _ = crate::interpose::link_me();
     std::panic::set_hook(Box::new(|info| {
         // model-thread panics are captured by catch_unwind; keep stderr quiet for them
         if TID.with(|t| t.get()) == NO_TID && !in_explorer_quiet() {
@@ -320,8 +326,6 @@ impl Exec {
             stale_used: 0,
             steps: 0,
             epoch: 0,
-            spin_releases: 0,
-            spin_release_epoch: 0,
             locs: HashMap::new(),
             n_locs: 0,
             setup_phase: true,
@@ -357,11 +361,11 @@ impl Exec {
     fn describe_threads(&self) -> String {
         let mut s = String::new();
         for (i, t) in self.threads.iter().enumerate() {
-            s.push_str(&format!(
-                "T{i}:{:?}{} ",
-                t.status,
-                if t.spin_epoch.is_some() { "(spinning)" } else { "" }
-            ));
+            let st = match t.status {
+                Status::BlockedMutex(_) => "BlockedOnMutex".to_string(),
+                x => format!("{x:?}"),
+            };
+            s.push_str(&format!("T{i}:{st}{} ", if t.spin_epoch.is_some() { "(spinning)" } else { "" }));
         }
         s
     }
@@ -427,23 +431,28 @@ impl Exec {
                 self.fatal = true;
                 return None;
             }
-            if self.spin_release_epoch == self.epoch {
-                self.spin_releases += 1;
-            } else {
-                self.spin_releases = 1;
-                self.spin_release_epoch = self.epoch;
-            }
-            if self.spin_releases > 3 {
-                let d = self.describe_threads();
-                self.fail(Failure::Livelock(format!(
-                    "only spinning threads left and no memory location changes: {d}"
-                )));
-                self.done = true;
-                self.fatal = true;
-                return None;
+            // Nobody else can run.  What looks like a spin loop may be a bounded loop that re-reads
+            // the same locations (e.g. a relocatable pointer inside an initialisation loop), so
+            // the threads are re-enabled and not flagged again until something changes.  Only a
+            // thread that then goes on for very long without any change is a livelock.
+            let epoch = self.epoch;
+            for &t in &spinners {
+                if self.threads[t].spin_immune_epoch == Some(epoch) && self.threads[t].nochange_ops > LIVELOCK_OPS {
+                    let d = self.describe_threads();
+                    self.fail(Failure::Livelock(format!(
+                        "only spinning threads are left and no memory location changes any more: {d}"
+                    )));
+                    self.done = true;
+                    self.fatal = true;
+                    return None;
+                }
             }
             for &t in &spinners {
                 self.threads[t].spin_epoch = None;
+                if self.threads[t].spin_immune_epoch != Some(epoch) {
+                    self.threads[t].spin_immune_epoch = Some(epoch);
+                    self.threads[t].nochange_ops = 0;
+                }
                 self.threads[t].recent.clear();
             }
             list = spinners;
@@ -870,6 +879,7 @@ unsafe fn hook_atomic(addr: *mut u8, width: u8, op: Op, a: u64, b: u64, so: Orde
         e.epoch += 1;
         e.state_hash ^= h2(loc_key, cur) ^ h2(loc_key, newv);
         e.threads[me].recent.clear();
+        e.threads[me].nochange_ops = 0;
     } else if !e.setup_phase {
         // an operation that changed nothing: candidate for a spin iteration
         let epoch = e.epoch;
@@ -877,14 +887,21 @@ unsafe fn hook_atomic(addr: *mut u8, width: u8, op: Op, a: u64, b: u64, so: Orde
         if th.recent_epoch != epoch {
             th.recent.clear();
             th.recent_epoch = epoch;
+            th.nochange_ops = 0;
         }
         th.recent.push((addr as usize, op as u8, observed));
+        th.nochange_ops += 1;
         let len = th.recent.len();
-        for p in 1..=MAX_PERIOD {
-            if len >= 2 * p && th.recent[len - 2 * p..len - p] == th.recent[len - p..] {
-                th.spin_epoch = Some(epoch);
-                break;
+        if th.spin_immune_epoch != Some(epoch) {
+            for p in 1..=MAX_PERIOD {
+                if len >= 2 * p && th.recent[len - 2 * p..len - p] == th.recent[len - p..] {
+                    th.spin_epoch = Some(epoch);
+                    break;
+                }
             }
+        } else if th.nochange_ops > LIVELOCK_OPS {
+            // still no change after a very long time: let the scheduler look at it again
+            th.spin_epoch = Some(epoch);
         }
         if th.recent.len() > 4 * MAX_PERIOD {
             let cut = th.recent.len() - 2 * MAX_PERIOD;
@@ -1140,6 +1157,99 @@ impl<T> JoinHandle<T> {
     }
 }
 
+// ------------------------------------------------------------------------------------------
+// pthread mutexes (called from `interpose`)
+
+/// Scheduling point before a lock attempt.  With `block` the calling thread waits (disabled)
+/// until the mutex is free and then owns it (returns true); without, returns whether it got it.
+pub fn mutex_lock(addr: usize, block: bool) -> bool {
+    let me = TID.with(|t| t.get());
+    {
+        let mut g = lock_rt();
+        let e = g.as_mut().unwrap().exec.as_mut().unwrap();
+        e.touch(me, addr, false, true);
+    }
+    sched_point(me, false, 0x10c4);
+    loop {
+        let mut g = lock_rt();
+        let rt = g.as_mut().unwrap();
+        let e = rt.exec.as_mut().unwrap();
+        match e.mutex_owner.get(&addr).copied() {
+            None => {
+                e.mutex_owner.insert(addr, me);
+                if let Some(v) = e.mutex_view.get(&addr).cloned() {
+                    view_join(&mut e.threads[me].view, &v);
+                }
+                e.epoch += 1;
+                e.threads[me].recent.clear();
+                if e.cfg.trace {
+                    let step = e.steps;
+                    e.trace.push(TraceEntry { step, thread: me, op: "MutexLock".into(), loc: format!("M{:x}", addr & 0xfff), old: 0, new: 1, ord: String::new() });
+                }
+                e.note_step(me, &mut rt.session);
+                return true;
+            }
+            Some(o) if o == me => {
+                // recursive / error-checking mutex: let the real function decide
+                return true;
+            }
+            Some(_) => {
+                if !block {
+                    e.note_step(me, &mut rt.session);
+                    return false;
+                }
+                e.threads[me].status = Status::BlockedMutex(addr);
+                let next = e.schedule(me, false, 0xb10c);
+                let _g = pass_baton(g, me, next);
+                // woken up: the mutex was released, try again
+            }
+        }
+    }
+}
+
+pub fn mutex_lock_failed(addr: usize) {
+    let me = TID.with(|t| t.get());
+    let mut g = lock_rt();
+    let e = g.as_mut().unwrap().exec.as_mut().unwrap();
+    if e.mutex_owner.get(&addr) == Some(&me) {
+        e.mutex_owner.remove(&addr);
+    }
+}
+
+/// scheduling point before an unlock
+pub fn mutex_unlock_point(addr: usize) {
+    let me = TID.with(|t| t.get());
+    {
+        let mut g = lock_rt();
+        let e = g.as_mut().unwrap().exec.as_mut().unwrap();
+        e.touch(me, addr, false, true);
+    }
+    sched_point(me, false, 0x0c4);
+}
+
+pub fn mutex_unlocked(addr: usize) {
+    let me = TID.with(|t| t.get());
+    let mut g = lock_rt();
+    let rt = g.as_mut().unwrap();
+    let e = rt.exec.as_mut().unwrap();
+    if e.mutex_owner.get(&addr) == Some(&me) {
+        e.mutex_owner.remove(&addr);
+    }
+    let v = e.threads[me].view.clone();
+    e.mutex_view.insert(addr, v);
+    for t in 0..e.threads.len() {
+        if e.threads[t].status == Status::BlockedMutex(addr) {
+            e.threads[t].status = Status::Runnable;
+        }
+    }
+    e.epoch += 1;
+    if e.cfg.trace {
+        let step = e.steps;
+        e.trace.push(TraceEntry { step, thread: me, op: "MutexUnlock".into(), loc: format!("M{:x}", addr & 0xfff), old: 1, new: 0, ord: String::new() });
+    }
+    e.note_step(me, &mut rt.session);
+}
+
 /// explicit scheduling point (e.g. between the two halves of a user-side write)
 pub fn step() {
     let me = TID.with(|t| t.get());
@@ -1261,6 +1371,7 @@ pub fn run_once(
     non_elidable: &Arc<HashSet<u32>>,
     body: &Body,
 ) -> ExecResult {
+    crate::interpose::reset_virtual_clock();
     {
         let mut g = lock_rt();
         let rt = g.as_mut().expect("ixmc::init_session not called");
